@@ -21,6 +21,9 @@ fn main() {
     }
     let prop: &'static str = Box::leak(args[1].clone().into_boxed_str());
     let code = std::panic::catch_unwind(|| {
+        if prop == "C09" && args[2] == "--deep-child" {
+            return props::nopanic::deep_child();
+        }
         if prop == "C10" && args[2] == "--emit-nonces" {
             return props::nonce::emit_first_nonces();
         }
